@@ -1,2 +1,323 @@
-def run_manager_scenarios(ctx, workload, n):
-    return
+"""Scenario simulator: a moving ego, ground-truth tracks, a detector/tracker model -> synthetic dataset
+-> the real PerceptionEvaluationManager. All taps that are installed stay live during these runs."""
+from __future__ import annotations
+
+from dataclasses import dataclass, field
+import math
+import random
+from typing import Any, Callable, Dict, List, Optional, Sequence, Tuple
+
+import numpy as np
+
+from .core import Ctx
+from .gen import dataset as D
+from .gen import objects as O
+from .oracles import geometry as G
+
+GT_CATEGORIES = [
+    # (category name in the dataset, canonical label without merging, with merging)
+    ("car", "car", "car"),
+    ("vehicle.car", "car", "car"),
+    ("vehicle.bus", "bus", "car"),
+    ("truck", "truck", "car"),
+    ("bicycle", "bicycle", "bicycle"),
+    ("motorcycle", "motorbike", "bicycle"),
+    ("pedestrian.adult", "pedestrian", "pedestrian"),
+    ("pedestrian", "pedestrian", "pedestrian"),
+    ("animal", "unknown", "unknown"),
+    ("movable_object.barrier", "unknown", "unknown"),
+    ("some.unregistered_thing", "unknown", "unknown"),
+    ("false_positive", "false_positive", "false_positive"),
+]
+EST_NAMES = ["car", "bus", "truck", "bicycle", "motorbike", "pedestrian", "unknown"]
+CONFUSION = {"car": ["truck", "bus"], "bus": ["car", "truck"], "truck": ["car", "bus"], "bicycle": ["motorbike", "pedestrian"], "motorbike": ["bicycle"], "pedestrian": ["bicycle"]}
+
+
+@dataclass
+class Frame:
+    t: int
+    ego_pos: Tuple[float, float, float]
+    ego_yaw: float
+    gts: List[Dict[str, Any]] = field(default_factory=list)  # key, category, box (ego frame), npts, vis, attrs
+    ests: List[Dict[str, Any]] = field(default_factory=list)  # key, name, box (ego frame), score, uuid
+
+
+@dataclass
+class Scenario:
+    task: str
+    frames: List[Frame]
+    cfg: Dict[str, Any]  # evaluation_config_dict without frame-dependent parts
+    critical: List[Dict[str, Any]]  # per frame kwargs of CriticalObjectFilterConfig
+    passfail: List[Dict[str, Any]]  # per frame kwargs of PerceptionPassFailConfig
+    info: Dict[str, Any] = field(default_factory=dict)
+
+    def scene_spec(self) -> D.SceneSpec:
+        samples = []
+        for f in self.frames:
+            anns = []
+            for g in f.gts:
+                pos, yaw = D.global_pose(f.ego_pos, f.ego_yaw, g["box"])
+                anns.append(D.Ann(inst=g["key"], category=g["category"], pos=pos, yaw=yaw, size=tuple(g["box"][4:7]), npts=g["npts"], vis=g["vis"], attrs=tuple(g["attrs"]), key=g["key"]))
+            samples.append(D.Sample(t=f.t, ego_pos=f.ego_pos, ego_yaw=f.ego_yaw, anns=anns))
+        return D.SceneSpec(samples=samples)
+
+    def make_estimates(self, k: int, frame_id: str, converter: Any, negate: bool = False) -> List[Any]:
+        f = self.frames[k]
+        out = []
+        for e in f.ests:
+            b = e["box"]
+            lab = converter.convert_label(e["name"])
+            o = O.obj3d(b[0], b[1], b[2], b[3], b[4], b[5], b[6], lab="car", score=e["score"], uuid=e["uuid"], t=f.t, negate_q=negate and (hash(e["uuid"]) & 1 == 0), velocity=(1.0, 0.0, 0.0))
+            o.semantic_label = lab
+            if frame_id == "map":
+                o = O.to_map(o, f.ego_pos, f.ego_yaw)
+            out.append(o)
+        return out
+
+
+def _ring_or_box(r: random.Random, n_labels: int, wide: float) -> Dict[str, Any]:
+    if r.random() < 0.5:
+        return {
+            "max_x_position_list": [round(r.uniform(0.3, 1.0) * wide, 2) for _ in range(n_labels)],
+            "max_y_position_list": [round(r.uniform(0.3, 1.0) * wide, 2) for _ in range(n_labels)],
+        }
+    return {
+        "max_distance_list": [round(r.uniform(0.4, 1.2) * wide, 2) for _ in range(n_labels)],
+        "min_distance_list": [round(r.choice([0.0, 0.0, r.uniform(0, 0.3) * wide]), 2) for _ in range(n_labels)],
+    }
+
+
+def gen_scenario(r: random.Random, task: Optional[str] = None, n_frames: Optional[int] = None, big: bool = False) -> Scenario:
+    task = task or r.choice(["detection", "detection", "tracking", "fp_validation"])
+    n_frames = n_frames or r.randint(1, 4 if not big else 8)
+    wide = r.choice([30.0, 60.0, 100.0])
+    far_ego = r.random() < 0.5
+    ego_pos = (r.uniform(-1e4, 1e4), r.uniform(-1e4, 1e4), r.uniform(-3, 3)) if far_ego else (r.uniform(-100, 100), r.uniform(-100, 100), 0.0)
+    ego_yaw = O.rand_yaw(r)
+    ego_speed = r.uniform(0, 15)
+    ego_yawrate = r.uniform(-0.5, 0.5)
+    t0 = 1_600_000_000_000_000 + r.randint(0, 10**9)
+    dt = r.choice([100_000, 100_000, 50_000, 500_000])
+    merge = r.random() < 0.3
+
+    n_tracks = r.randint(0, 10 if not big else 20)
+    cats = GT_CATEGORIES if task != "fp_validation" else [c for c in GT_CATEGORIES if c[0] == "false_positive"]
+    fp_share = r.choice([0.0, 0.15, 0.4]) if task != "fp_validation" else 1.0
+    tracks = []
+    for i in range(n_tracks):
+        if r.random() < fp_share:
+            cat = ("false_positive", "false_positive", "false_positive")
+        else:
+            cat = r.choice([c for c in cats if c[0] != "false_positive"] or cats)
+        rad = r.uniform(0, 1.3) * wide
+        ang = r.uniform(-math.pi, math.pi)
+        tracks.append(
+            dict(
+                key=f"inst{i:03d}",
+                cat=cat,
+                p=[rad * math.cos(ang), rad * math.sin(ang), r.uniform(-0.5, 0.5)],
+                v=[r.uniform(-8, 8), r.uniform(-8, 8)],
+                yaw=O.rand_yaw(r),
+                yawrate=r.uniform(-0.3, 0.3),
+                size=(r.uniform(0.4, 2.6), r.uniform(0.4, 7.0), r.uniform(0.8, 3.2)),
+                npts=r.choice([0, 1, 3, 10, 50, 200]),
+                vis=r.choice(["full", "most", "partial", "none"]),
+                born=r.randint(0, max(0, n_frames - 1)) if r.random() < 0.25 else 0,
+                dies=r.randint(1, n_frames) if r.random() < 0.2 else n_frames,
+                attrs=r.choice([[], [], ["vehicle.moving"], ["cycle.with_rider"], ["vehicle.parked", "extra"]]),
+                trk_id=f"trk{i:03d}",
+            )
+        )
+    p_det = r.choice([1.0, 0.9, 0.6])
+    pos_sig = r.choice([0.02, 0.2, 0.8, 2.0])
+    yaw_sig = r.choice([0.0, 0.05, 0.5, 2.0])
+    p_conf = r.choice([0.0, 0.1, 0.4])
+    p_unknown = r.choice([0.0, 0.1, 0.3])
+    n_fa = r.choice([0, 0, 1, 3])
+    p_switch = r.choice([0.0, 0.0, 0.15, 0.4])
+
+    frames: List[Frame] = []
+    next_id = [1000]
+    for k in range(n_frames):
+        tk = t0 + k * dt
+        sec = k * dt * 1e-6
+        ey = G.wrap_pi(ego_yaw + ego_yawrate * sec)
+        ep = (ego_pos[0] + ego_speed * sec * math.cos(ego_yaw), ego_pos[1] + ego_speed * sec * math.sin(ego_yaw), ego_pos[2])
+        fr = Frame(t=tk, ego_pos=ep, ego_yaw=ey)
+        for tr in tracks:
+            if not (tr["born"] <= k < tr["dies"]):
+                continue
+            x = tr["p"][0] + tr["v"][0] * sec
+            y = tr["p"][1] + tr["v"][1] * sec
+            yaw = G.wrap_pi(tr["yaw"] + tr["yawrate"] * sec)
+            box = (x, y, tr["p"][2], yaw, *tr["size"])
+            fr.gts.append(dict(key=tr["key"], category=tr["cat"][0], canon=tr["cat"][2 if merge else 1], box=box, npts=tr["npts"], vis=tr["vis"], attrs=tr["attrs"]))
+            if r.random() < p_det:
+                if k > 0 and r.random() < p_switch:
+                    next_id[0] += 1
+                    tr["trk_id"] = f"trk{next_id[0]}"
+                name = tr["cat"][1]
+                if name in ("unknown", "false_positive"):
+                    name = r.choice(EST_NAMES)
+                elif r.random() < p_unknown:
+                    name = "unknown"
+                elif r.random() < p_conf:
+                    name = r.choice(CONFUSION.get(name, ["car"]))
+                eb = (
+                    x + r.gauss(0, pos_sig),
+                    y + r.gauss(0, pos_sig),
+                    tr["p"][2] + r.gauss(0, 0.1),
+                    G.wrap_pi(yaw + r.gauss(0, yaw_sig) + (math.pi if r.random() < 0.05 else 0.0)),
+                    max(0.1, tr["size"][0] + r.gauss(0, 0.1)),
+                    max(0.1, tr["size"][1] + r.gauss(0, 0.3)),
+                    max(0.1, tr["size"][2] + r.gauss(0, 0.1)),
+                )
+                fr.ests.append(dict(key=f"e{k}_{tr['key']}", name=name, box=eb, score=round(r.uniform(0.05, 1.0), 4), uuid=tr["trk_id"]))
+        for j in range(n_fa):
+            rad = r.uniform(0, 1.3) * wide
+            ang = r.uniform(-math.pi, math.pi)
+            fr.ests.append(
+                dict(
+                    key=f"e{k}_fa{j}",
+                    name=r.choice(EST_NAMES),
+                    box=(rad * math.cos(ang), rad * math.sin(ang), 0.0, O.rand_yaw(r), r.uniform(0.5, 2.5), r.uniform(0.5, 5), r.uniform(1, 3)),
+                    score=round(r.uniform(0.05, 1.0), 4),
+                    uuid=f"fa{k}_{j}",
+                )
+            )
+        # distinct confidences inside a frame and across frames help order-free comparisons
+        r.shuffle(fr.ests)
+        frames.append(fr)
+    seen_scores = set()
+    for fr in frames:
+        for e in fr.ests:
+            while e["score"] in seen_scores:
+                e["score"] = round(e["score"] * 0.999 + 1e-4, 6)
+            seen_scores.add(e["score"])
+
+    # ---- evaluation config -------------------------------------------------------------
+    tl_pool = ["car", "bicycle", "pedestrian"] if merge else ["car", "truck", "bus", "bicycle", "motorbike", "pedestrian"]
+    target = r.sample(tl_pool, r.randint(1, len(tl_pool)))
+    if r.random() < 0.35:
+        target.append("unknown")
+    if task == "fp_validation" or r.random() < 0.25:
+        target.append("false_positive")
+    nl = len(target)
+    cfg: Dict[str, Any] = {
+        "evaluation_task": task,
+        "target_labels": target,
+        "label_prefix": "autoware",
+        "merge_similar_labels": merge,
+        "matching_label_policy": r.choice(["DEFAULT", "ALLOW_UNKNOWN", "ALLOW_ANY"]),
+        "min_point_numbers": [r.choice([0, 0, 1, 5]) for _ in range(nl)],
+        "center_distance_thresholds": [[round(r.uniform(0.3, 3.0), 2) for _ in range(nl)], [r.choice([1.0, 2.0])]] if r.random() < 0.5 else [round(r.uniform(0.3, 3.0), 2)],
+        "plane_distance_thresholds": [round(r.uniform(0.3, 3.0), 2)],
+        "iou_2d_thresholds": [round(r.uniform(0.1, 0.7), 2)],
+        "iou_3d_thresholds": [round(r.uniform(0.1, 0.7), 2)],
+    }
+    if r.random() < 0.5:
+        cfg["max_x_position"] = wide
+        cfg["max_y_position"] = wide
+    else:
+        cfg["max_distance"] = wide * 1.2
+        cfg["min_distance"] = r.choice([0.0, 0.0, 2.0])
+    if r.random() < 0.4:
+        cfg["max_matchable_radii"] = [round(r.uniform(1.0, 6.0), 2) for _ in range(nl)] if r.random() < 0.5 else round(r.uniform(1.0, 6.0), 2)
+    if r.random() < 0.3:
+        cfg["confidence_threshold"] = round(r.uniform(0.0, 0.5), 2)
+    if r.random() < 0.15:
+        cfg["ignore_attributes"] = r.choice([["vehicle.parked"], ["cycle"], ["extra", "nothing"]])
+    if task == "fp_validation":
+        for k_ in ("center_distance_thresholds", "plane_distance_thresholds", "iou_2d_thresholds", "iou_3d_thresholds"):
+            cfg.pop(k_)
+
+    critical, passfail = [], []
+    for k in range(n_frames):
+        # NOTE: the library indexes per-label dictionaries built from the critical filter's labels with the
+        # evaluator's target labels, so the critical labels must cover them: same set, possibly permuted.
+        crit_labels = list(target) if r.random() < 0.7 else r.sample(target, nl)
+        c = {"target_labels": crit_labels, **_ring_or_box(r, len(crit_labels), wide)}
+        if r.random() < 0.3:
+            c["min_point_numbers"] = [r.choice([0, 1, 5]) for _ in crit_labels]
+        if r.random() < 0.2:
+            c["confidence_threshold_list"] = [round(r.uniform(0, 0.4), 2) for _ in crit_labels]
+        critical.append(c)
+        pf_labels = list(crit_labels) if r.random() < 0.6 else list(target)
+        if "false_positive" not in pf_labels and r.random() < 0.3:
+            pf_labels.append("false_positive")
+        pf = {"target_labels": pf_labels, "matching_threshold_list": [round(r.choice([0.05, 0.5, 1.0, 2.0, 5.0, 50.0]) * r.uniform(0.8, 1.2), 3) for _ in pf_labels]}
+        passfail.append(pf)
+    info = dict(task=task, n_frames=n_frames, n_tracks=n_tracks, merge=merge, far_ego=far_ego, wide=wide, policy=cfg["matching_label_policy"], fp_share=fp_share, pos_sig=pos_sig, p_switch=p_switch)
+    return Scenario(task=task, frames=frames, cfg=cfg, critical=critical, passfail=passfail, info=info)
+
+
+# ----------------------------------------------------------------------------------------
+# running a scenario through the real manager
+# ----------------------------------------------------------------------------------------
+class Run:
+    def __init__(self, scn: Scenario, frame_id: str, ds: D.DatasetDir):
+        from perception_eval.config import PerceptionEvaluationConfig
+        from perception_eval.manager import PerceptionEvaluationManager
+
+        self.scn, self.frame_id, self.ds = scn, frame_id, ds
+        self.config = PerceptionEvaluationConfig(
+            dataset_paths=[ds.root],
+            frame_id=frame_id,
+            result_root_directory=ds.result_root,
+            evaluation_config_dict=dict(scn.cfg),
+            load_raw_data=False,
+        )
+        self.manager = PerceptionEvaluationManager(evaluation_config=self.config)
+        self.results: List[Any] = []
+        self.estimates: List[List[Any]] = []
+
+    def configs(self, k: int):
+        from perception_eval.evaluation.result.perception_frame_config import CriticalObjectFilterConfig, PerceptionPassFailConfig
+
+        crit = CriticalObjectFilterConfig(evaluator_config=self.config, **self.scn.critical[k])
+        pf = PerceptionPassFailConfig(evaluator_config=self.config, **self.scn.passfail[k])
+        return crit, pf
+
+    def add(self, k: int, negate: bool = False, critical: Optional[Dict[str, Any]] = None) -> Any:
+        f = self.scn.frames[k]
+        gt = self.manager.get_ground_truth_now_frame(f.t)
+        ests = self.scn.make_estimates(k, self.frame_id, self.config.label_converter, negate=negate)
+        crit, pf = self.configs(k)
+        if critical is not None:
+            from perception_eval.evaluation.result.perception_frame_config import CriticalObjectFilterConfig
+
+            crit = CriticalObjectFilterConfig(evaluator_config=self.config, **critical)
+        res = self.manager.add_frame_result(unix_time=f.t, ground_truth_now_frame=gt, estimated_objects=ests, critical_object_filter_config=crit, frame_pass_fail_config=pf)
+        self.results.append(res)
+        self.estimates.append(ests)
+        return res
+
+    def run_all(self) -> List[Any]:
+        for k in range(len(self.scn.frames)):
+            self.add(k)
+        return self.results
+
+
+def run_manager_scenarios(ctx: Ctx, workload: str, n: int, frame_ids: Sequence[str] = ("base_link", "map"), after: Optional[Callable] = None) -> None:
+    """Generic realistic workload: every installed tap observes the internal calls."""
+    for idx in ctx.indices(workload, n):
+        r = ctx.rng(workload, idx)
+        scn = gen_scenario(r)
+        frame_id = frame_ids[idx % len(frame_ids)]
+        ctx.begin_case(workload, idx, frame_id=frame_id, **scn.info)
+        try:
+            with D.DatasetDir(scn.scene_spec()) as ds:
+                run = Run(scn, frame_id, ds)
+                run.run_all()
+                scene = run.manager.get_scene_result()
+                if after is not None:
+                    after(run, scene)
+        except Exception as e:
+            import traceback
+
+            ctx.violation(f"{ctx.prop}/scenario_exception:{type(e).__name__}", dict(scn.info, frame_id=frame_id, error=str(e)[:300], tb=traceback.format_exc(limit=6)[-900:]), tap="scenario")
+            continue
+        n_est = sum(len(f.ests) for f in scn.frames)
+        n_gt = sum(len(f.gts) for f in scn.frames)
+        ctx.count("scenario.frames", len(scn.frames))
+        ctx.case(("scenario", scn.task, frame_id, scn.info["policy"], scn.info["merge"], min(n_est, 3), min(n_gt, 3), min(len(scn.frames), 3)), nontrivial=n_est > 0 and n_gt > 0, sample=dict(scn.info, frame_id=frame_id, n_est=n_est, n_gt=n_gt) if idx < 6 else None)
